@@ -100,6 +100,7 @@ def run(ctx):
     ctx.assume('oracle: explicit cgs factors (1 mJy = 1e-26 erg/s/cm2/Hz, 1 W/m2 = 1e3 erg/s/cm2, L = F d^2 with d in cm as the statement says)',
                'rtol 1e-12')
     ctx.require_events('convert_flux:post', 'read:matrix', 'roundtrip:ABA', 'chain:ABC', 'refused:target', 'refused:stored')
+    ctx.require_regimes('stored:desc-wav', 'stored:asc-wav', 'read-order:nu', 'read-order:wav')
     d = ctx.newdir('c15')
     names = list(UNITS)
     ic = 0
@@ -136,13 +137,18 @@ def run(ctx):
                     fs, es = f[:, ::-1], e[:, ::-1]          # SED.write stores by increasing frequency
                     wav_s, nu_s = wav[::-1], nu[::-1]
                 else:
-                    pkg.write_sed_file(path, 'x', wav, nu, aps, f, e, descending_wav=True, fmt='D',
+                    dw = bool(rng.random() < 0.5)          # storage order: descending wavelength (as the original packages) or ascending
+                    pkg.write_sed_file(path, 'x', wav, nu, aps, f, e, descending_wav=dw, fmt='D',
                                        legacy_units=(spelling in ('MJY', 'ergs/cm^2/s')), flux_unit=spelling, distance_cm=d_cm)
-                    fs, es, wav_s, nu_s = f[:, ::-1], e[:, ::-1], wav[::-1], nu[::-1]
+                    fs, es, wav_s, nu_s = f[:, ::-1], e[:, ::-1], wav[::-1], nu[::-1]      # reference arrays in ascending frequency
+                    ctx.regime('stored:desc-wav' if dw else 'stored:asc-wav')
                 for b in names:
                     wit = {'stored': a, 'spelling': spelling, 'requested': b, 'distance_cm': d_cm, 'n_ap': n_ap}
+                    order = 'nu' if rng.random() < 0.5 else 'wav'
+                    ctx.regime('read-order:' + order)
+                    wit['order'] = order
                     try:
-                        r = SED.read(path, unit_flux=UNITS[b][0], order='nu')
+                        r = SED.read(path, unit_flux=UNITS[b][0], order=order)
                     except Exception as exc:
                         ctx.violation('read-raised:%s:%s' % (a, 'write' if spelling == '<SED.write>' else 'own'),
                                       'SED.read raised for supported units: %r' % (exc,), wit)
@@ -153,6 +159,8 @@ def run(ctx):
                     ref_e = from_base(b, to_base(a, es, nu_s, d_cm), nu_s, d_cm)
                     gf = np.asarray(r.flux.to(UNITS[b][0]).value, float)
                     ge = np.asarray(r.error.to(UNITS[b][0]).value, float)
+                    if order == 'wav':          # ascending wavelength = descending frequency: pair cells by frequency
+                        nu_r, gf, ge = nu_r[::-1], gf[:, ::-1], ge[:, ::-1]
                     if not O.close(nu_r, nu_s, 1e-12) or not O.close(gf, ref_f, 1e-12) or not O.close(ge, ref_e, 1e-12):
                         ctx.violation('read:%s->%s' % (a, b), 'SED.read(unit_flux=...) values are not related by F = nu F_nu, L = F d^2',
                                       dict(wit, got=gf[0][:4], expected=ref_f[0][:4]))
